@@ -62,6 +62,17 @@ from .common import (
 __all__ = ['get_slice_stmtlike', 'put_slice_stmtlike']
 
 
+def _fpost_follows_semi(lines: list[str], post_semi: tuple[int, int], fpost: fst.FST) -> bool:
+    """Whether `fpost` follows the semicolon at `post_semi` on the same logical line, as opposed to starting on a
+    following line after a useless trailing semicolon (possibly with comments in between)."""
+
+    ln, col = post_semi
+    fpost_ln, fpost_col, _, _ = fpost.bloc
+
+    return bool((frag := next_frag(lines, ln, col + 1, fpost_ln, fpost_col + 1, True, None))
+                and not frag.src.startswith('#'))
+
+
 class SrcEdit:
     """This class controls most source editing behavior."""
 
@@ -358,9 +369,9 @@ class SrcEdit:
 
         elif pre_semi:
             if post_semi:
-                if fpost:
+                if fpost and _fpost_follows_semi(lines, post_semi, fpost):
                     del_loc = fstloc(*pre_semi, *post_semi)
-                else:
+                else:  # no fpost or it is on a following line after a useless trailing semicolon
                     del_loc, put_lines = fix_post_semi(post_semi)
 
             else:
@@ -871,7 +882,7 @@ class SrcEdit:
         put_ln, put_col, put_end_ln, put_end_col = put_loc
 
         if pre_semi and post_semi:
-            if fpost:  # sandwiched between two semicoloned statements
+            if fpost and _fpost_follows_semi(lines, post_semi, fpost):  # sandwiched between two semicoloned statements
                 put_ln = fpre.bend_ln
                 put_col = fpre.bend_col
                 put_end_ln = fpost.bln
